@@ -567,6 +567,11 @@ def scenario_refinegrains(run, seed, idx, mods):
     for g in range(ng):
         S = xtal.random_sym_stretch(r, 1e-3)
         t = r.uniform(-300, 300, 3)
+        if idx % 3 == 2:
+            # positions with exact zeros: on the rotation axis (0, 0, z), in the beam plane, at the origin - needle
+            # samples and first-pass fits produce them, and "zero" shortcuts in the geometry code see them
+            t = t * np.array([[0, 0, 1], [1, 0, 0], [0, 1, 1], [0, 0, 0], [1, 1, 0], [0, 1, 0]][(idx // 3 + g) % 6], float)
+            run.count("grains_with_zero_translation_components")
         if idx % 5 == 0 and g > 0:       # near-duplicate orientation, different place
             UB = xtal.rot_axis_angle(r.normal(size=3), 2e-3) @ grains[0][0]
         else:
